@@ -745,6 +745,30 @@ func leafEdit(r *Rng, raw json.RawMessage) (json.RawMessage, bool) {
 			nv = n + Pick(r, []int64{1, 1, 256, 65536, 1 << 32})
 		case bool:
 			nv = !v
+		case OM:
+			// an optional list member that is absent becomes an explicitly empty list (or the other way
+			// round): the two parse alike in many places and need not encode alike
+			has := func(k string) bool {
+				for _, kv := range v {
+					if kv.K == k {
+						return true
+					}
+				}
+				return false
+			}
+			var add string
+			switch {
+			case has("oid") && !has("qualifiers") && !has("critical") && !has("raw"):
+				add = "qualifiers"
+			case (has("organization") || has("text")) && !has("numbers"):
+				add = "numbers"
+			case has("professionItems") && !has("professionOids"):
+				add = "professionOids"
+			}
+			if add == "" {
+				continue
+			}
+			nv = append(append(OM{}, v...), KV{add, []any{}})
 		case []any:
 			switch {
 			case len(v) >= 2 && r.Bool() && !sameJSON(v[0], v[1]):
